@@ -152,6 +152,14 @@ def check(cfg, lines):
                 units[src].remove(i)
             if place.get(i) == ("src", src):
                 creation[i] = t
+            if ncfg[src]["blocking"] and ncfg[src]["outsel"][0] == "FA" and ncfg[src]["kind"] == "machine":
+                # the worker chooses among its granted requests and puts in one kernel step: a lower-index
+                # out-edge with room left for it at this very point had granted its request too
+                slack = ncfg[src]["wcap"] - 1
+                for e2 in ncfg[src]["outs"][:ncfg[src]["outs"].index(ed)]:
+                    if len(inside[e2]) + slack < ecfg[e2]["cap"]:
+                        v("C15", "blocking machine %d (FIRST_AVAILABLE) pushed item %d to out-edge %d at %s although the lower-index out-edge %d held %d of %d" %
+                          (src, i, ed, t, e2, len(inside[e2]), ecfg[e2]["cap"]))
             if not ncfg[src]["blocking"] and ncfg[src]["outsel"][0] == "FA" and ncfg[src]["kind"] != "source":
                 slack = ncfg[src]["wcap"] - 1
                 for e2 in ncfg[src]["outs"][:ncfg[src]["outs"].index(ed)]:
